@@ -11,6 +11,7 @@ def absoluteSessionTimeout : Go.Duration := ((24 : Int) * Go.Hour)
 def accessTokenCookie : Go.Str := ['_','o','i','d','c','_','r','a','c','z','y','l','o','_','a']
 def defaultBlacklistDuration : Go.Duration := ((24 : Int) * Go.Hour)
 def maxCookieSize : Int := (2000 : Int)
+def maxNumericDate : Int := (4611686018427387904 : Int)
 def refreshTokenCookie : Go.Str := ['_','o','i','d','c','_','r','a','c','z','y','l','o','_','r']
 
 /-- verifyIssuer (jwt.go) -/
@@ -20,9 +21,19 @@ def verifyIssuer (tokenIssuer : Go.Str) (expectedIssuer : Go.Str) : Go.Err :=
   else
     (none : Go.Err)
 
+/-- numericDateSeconds (jwt.go) -/
+def numericDateSeconds (v : Go.F64) : Int :=
+  if (Go.f64GeNonneg v maxNumericDate) then
+    maxNumericDate
+  else
+    if (Go.f64LeNonpos v (-maxNumericDate)) then
+      (-maxNumericDate)
+    else
+      (Go.int64 v)
+
 /-- verifyTimeConstraint (jwt.go) -/
 def verifyTimeConstraint (now : Go.Time) (unixTime : Go.F64) (claimName : Go.Str) (future : Bool) : Go.Err :=
-  let claimTime := (Go.timeUnix (Go.int64 unixTime) (0 : Int))
+  let claimTime := (Go.timeUnix (numericDateSeconds unixTime) (0 : Int))
   let now_1 := now
   let err := (none : Go.Err)
   if future then
